@@ -293,6 +293,36 @@ def build() -> Check:
     ck.floor("wrapper_bte_traces", n_bte, 1)
     ck.ob("R5.wrapper-outcome", fn_construct(wrapper), not bad, (bad[0][0] + ": " + trace_sig(bad[0][1])[-300:]) if bad else f"{n_bte} paths")
 
+    # R5b a failure of a call that carried only fire-and-forget updates (context STARTs, the empty refresh of a resume timer) wakes nobody in the
+    # handler's thread: the handler can finish or suspend normally. The verdict SUCCEEDED / PENDING may therefore only be given after the
+    # wrapper itself has looked at the failure state (necessary condition: some read of it follows the handler's outcome on every such path)
+    bad_v = []
+    n_verdicts = 0
+    for t in wt:
+        if t.outcome != "return" or not hasattr(t.value, "items"):
+            continue
+        stv = t.value.items.get("Status")
+        if not (isinstance(stv, Const) and stv.value in ("SUCCEEDED", "PENDING")):
+            continue
+        n_verdicts += 1
+        res = [i for i, e in enumerate(t.events) if e.kind == "RESULT"]
+        after = t.events[res[0]:] if res else t.events
+        synced = any(e.kind == "CKPT" and e.data.get("sync") and e.data.get("outcome") == "ok" for e in after)
+        looks = [i for i, e in enumerate(after) if e.kind == "FAILCHECK" or (e.kind in ("EXT", "EV_ISSET", "EV_WAIT") and (
+            "checkpointing_failed" in str(e.data.get("recv", "")) or "checkpointing_failed" in str(e.data.get("ev", ""))))]
+        # what the handler handed over must have been sent (or dropped) before the look: the background loop was told to stop and has ended
+        joins = [i for i, e in enumerate(after) if e.kind == "BG_JOIN" and e.data.get("after_stop")]
+        if synced:
+            continue  # an accepted synchronous record after the handler finished: everything queued before it was delivered (FIFO)
+        if not looks:
+            bad_v.append((f"the invocation answers {stv.value} without having looked at the checkpoint failure state after the handler finished: a failed call that "
+                          "carried only fire-and-forget updates goes unnoticed", t))
+        elif not joins or min(joins) > max(looks):
+            bad_v.append((f"the invocation answers {stv.value} after looking at the failure state while the background loop may still be sending what the handler "
+                          "handed over (no stop + join before the look): a call that fails a moment later goes unnoticed", t))
+    ck.floor("wrapper_verdict_paths", n_verdicts, 2)
+    ck.ob("R5.verdict-consults-failure-state", fn_construct(wrapper), not bad_v, (bad_v[0][0]) if bad_v else f"{n_verdicts} paths")
+
     # ---- R6 executors: a failed checkpoint ends the operation with that failure ----------------------
     n = 0
     for name, ci, ot, st in applicable_cells(pm):
